@@ -94,6 +94,10 @@ func c22Timescale(step int64, maxSteps int64) {
 	}
 	metric := &format.MetricMetaValue{Resolution: []int{1, 60}[v.Choice(2)]}
 	args.QueryStat.Add(metric, 0)
+	c22CheckAxis(args, metric, start, end, step)
+}
+
+func c22CheckAxis(args GetTimescaleArgs, metric *format.MetricMetaValue, start, end, step int64) {
 	ts, err := GetTimescale(args)
 	v.Assert("C22.ts.no_error", err == nil)
 	if err != nil || len(ts.Time) == 0 {
